@@ -854,6 +854,7 @@ def check_c15(ctx):
     d = lib.mktemp("verif-life-")
     life = [{"kind": k, "n": n, "entries": e, "intv": 1_000_000, "cb": cb}
             for k in ("Cache", "CacheOf") for (n, e) in ((1, 3), (50, 2), (20, 0)) for cb in (False, True)]
+    life += [{"kind": k, "n": 10, "entries": 3, "intv": 1_000_000, "cb": True, "busy": True} for k in ("Cache", "CacheOf")]
     if ctx.thorough:
         life += [{"kind": k, "n": 400, "entries": 3, "intv": iv, "cb": True} for k in ("Cache", "CacheOf") for iv in (1_000_000, 10_000_000_000)]
     job = {"programs": life_programs(ctx), "lifecycle": life}
